@@ -1,9 +1,780 @@
-(* C04 proofs *)
-From Coq Require Import List Arith Bool Lia.
+(* C04 — specification-level definitions and proofs about Model/Search.v.
+   Everything is proved for an ARBITRARY forest `kids` and ARBITRARY oracles; hypotheses (WF forest,
+   blank-line shape, soundness of the substring shortcut) appear only where they are needed. *)
+From Coq Require Import List Arith Bool Lia Sorting.Sorted Sorting.Permutation.
 Require Import CCP.Model.Search.
 Import ListNotations.
 
-Lemma find_objects_spec kids rxm r ex ws esc rv :
-  find_objects kids rxm r ex ws esc rv =
+(* ------------------------------------------------------------------ generic list facts *)
+Lemma flat_map_flat_map {A B C} (f : A -> list B) (g : B -> list C) l :
+  flat_map g (flat_map f l) = flat_map (fun a => flat_map g (f a)) l.
+Proof. induction l as [|a l IH]; simpl; auto. rewrite flat_map_app, IH. reflexivity. Qed.
+
+Lemma flat_map_map' {A B C} (f : A -> B) (g : B -> list C) l :
+  flat_map g (map f l) = flat_map (fun a => g (f a)) l.
+Proof. induction l as [|a l IH]; simpl; auto. now rewrite IH. Qed.
+
+Lemma map_flat_map {A B C} (f : B -> C) (g : A -> list B) l :
+  map f (flat_map g l) = flat_map (fun x => map f (g x)) l.
+Proof. induction l as [|a l IH]; simpl; auto. now rewrite map_app, IH. Qed.
+
+Lemma filter_idem {A} (f : A -> bool) l : filter f (filter f l) = filter f l.
+Proof.
+  induction l as [|a l IH]; simpl; auto.
+  destruct (f a) eqn:E; simpl; [rewrite E, IH|]; auto.
+Qed.
+
+Lemma is_nil_filter_existsb {A} (f : A -> bool) l : negb (is_nil (filter f l)) = existsb f l.
+Proof. induction l as [|a l IH]; simpl; auto. destruct (f a); simpl; auto. Qed.
+
+Lemma is_nil_filter_existsb' {A} (f : A -> bool) l : is_nil (filter f l) = negb (existsb f l).
+Proof. rewrite <- is_nil_filter_existsb, negb_involutive. reflexivity. Qed.
+
+(* ------------------------------------------------------------------ sorting *)
+Lemma insert_perm x l : Permutation (insert x l) (x :: l).
+Proof.
+  induction l as [|y t IH]; simpl; auto.
+  destruct (x <=? y); auto.
+  rewrite IH. apply perm_swap.
+Qed.
+
+Lemma isort_perm l : Permutation (isort l) l.
+Proof. induction l as [|x t IH]; simpl; auto. rewrite insert_perm. auto. Qed.
+
+Lemma In_isort x l : In x (isort l) <-> In x l.
+Proof. split; apply Permutation_in; [|symmetry]; apply isort_perm. Qed.
+
+Lemma insert_sorted x l : StronglySorted le l -> StronglySorted le (insert x l).
+Proof.
+  induction l as [|y t IH]; intros Hs; simpl.
+  - constructor; constructor.
+  - inversion Hs as [|? ? Ht Hy]; subst.
+    destruct (x <=? y) eqn:E.
+    + apply Nat.leb_le in E. constructor; auto. constructor; auto.
+      eapply Forall_impl; [|exact Hy]. intros; lia.
+    + apply Nat.leb_gt in E. constructor; auto.
+      eapply Permutation_Forall; [symmetry; apply insert_perm|].
+      constructor; [lia|auto].
+Qed.
+
+Lemma isort_sorted l : StronglySorted le (isort l).
+Proof. induction l as [|x t IH]; simpl; [constructor|apply insert_sorted; auto]. Qed.
+
+Lemma sorted_le_nodup_lt l : StronglySorted le l -> NoDup l -> StronglySorted lt l.
+Proof.
+  induction 1 as [|a t Hs IH Ha]; intros Hn; [constructor|].
+  inversion Hn as [|? ? Hni Hnt]; subst. constructor; auto.
+  rewrite Forall_forall in *. intros y Hy. specialize (Ha y Hy).
+  assert (a <> y) by (intros ->; contradiction). lia.
+Qed.
+
+Lemma sort_set_sorted l : StronglySorted lt (sort_set l).
+Proof.
+  unfold sort_set. apply sorted_le_nodup_lt; [apply isort_sorted|].
+  eapply Permutation_NoDup; [symmetry; apply isort_perm|apply NoDup_nodup].
+Qed.
+
+Lemma In_sort_set x l : In x (sort_set l) <-> In x l.
+Proof. unfold sort_set. rewrite In_isort. apply nodup_In. Qed.
+
+Lemma sorted_lt_NoDup l : StronglySorted lt l -> NoDup l.
+Proof.
+  induction 1 as [|a t Hs IH Ha]; constructor; auto.
+  intros Hin. rewrite Forall_forall in Ha. specialize (Ha a Hin). lia.
+Qed.
+
+(* a strictly ascending list is determined by its set of members *)
+Lemma sorted_lt_unique l1 : forall l2,
+  StronglySorted lt l1 -> StronglySorted lt l2 -> (forall x, In x l1 <-> In x l2) -> l1 = l2.
+Proof.
+  induction l1 as [|a t1 IH]; intros l2 H1 H2 Hm.
+  - destruct l2 as [|b t2]; auto. exfalso. apply (proj2 (Hm b)). left; auto.
+  - destruct l2 as [|b t2]; [exfalso; apply (proj1 (Hm a)); left; auto|].
+    inversion H1 as [|? ? Hs1 Ha]; subst. inversion H2 as [|? ? Hs2 Hb]; subst.
+    rewrite Forall_forall in Ha, Hb.
+    assert (a = b) as ->.
+    { destruct (proj1 (Hm a) (or_introl eq_refl)) as [E|E]; auto.
+      destruct (proj2 (Hm b) (or_introl eq_refl)) as [E'|E']; auto.
+      specialize (Ha _ E'). specialize (Hb _ E). lia. }
+    f_equal. apply IH; auto. intros x. split; intros Hx.
+    + destruct (proj1 (Hm x) (or_intror Hx)) as [E|E]; auto. subst x. specialize (Ha _ Hx). lia.
+    + destruct (proj2 (Hm x) (or_intror Hx)) as [E|E]; auto. subst x. specialize (Hb _ Hx). lia.
+Qed.
+
+Lemma sort_set_ext l1 l2 : (forall x, In x l1 <-> In x l2) -> sort_set l1 = sort_set l2.
+Proof.
+  intros H. apply sorted_lt_unique; try apply sort_set_sorted.
+  intros x. rewrite !In_sort_set. apply H.
+Qed.
+
+Lemma sort_set_of_sorted l : StronglySorted lt l -> sort_set l = l.
+Proof.
+  intros H. apply sorted_lt_unique; auto using sort_set_sorted.
+  intros x. apply In_sort_set.
+Qed.
+
+Lemma seq_sorted a n : StronglySorted lt (seq a n).
+Proof.
+  revert a. induction n as [|n IH]; intros a; simpl; constructor; auto.
+  rewrite Forall_forall. intros x Hx. apply in_seq in Hx. lia.
+Qed.
+
+Lemma filter_sorted {R : nat -> nat -> Prop} (f : nat -> bool) l :
+  StronglySorted R l -> StronglySorted R (filter f l).
+Proof.
+  induction 1 as [|a t Hs IH Ha]; simpl; [constructor|].
+  destruct (f a); auto. constructor; auto.
+  rewrite Forall_forall in *. intros x Hx. apply filter_In in Hx. apply Ha. tauto.
+Qed.
+
+(* ------------------------------------------------------------------ the searches *)
+Section Proofs.
+Variable kids : list (list nat).
+Variable par : nat -> nat.
+Variable tru : nat -> bool.
+Variable rxm : nat -> nat -> nat -> bool.
+Variable nometa : nat -> nat -> bool.
+Variable lit : nat -> nat -> nat -> bool.
+Variable ne : nat -> nat -> nat -> bool.
+
+(* tactics such as lia/tauto generalise over every section variable in sight: drop the unused ones first *)
+Ltac clr := try clear rxm; try clear par; try clear tru; try clear nometa; try clear lit; try clear ne.
+
+Notation nlines := (nlines kids).
+Notation children := (children kids).
+Notation all_lines := (all_lines kids).
+Notation all_children := (all_children kids).
+Notation find_line := (find_line kids rxm).
+Notation find_objects := (find_objects kids rxm).
+Notation next_kids := (next_kids kids rxm).
+Notation grow1 := (grow1 kids rxm).
+Notation branches_raw := (branches_raw kids rxm).
+Notation find_object_branches := (find_object_branches kids tru rxm).
+Notation re_search := (re_search rxm nometa lit).
+
+(* ---------------- hypotheses used by some theorems ---------------- *)
+(* children have larger line numbers than their parent and are lines of the config *)
+Definition WF : Prop := forall p c, In c (children p) -> p < c < nlines.
+(* a falsy line object (empty text) has no children and is nobody's child *)
+Definition BlankOK : Prop :=
+  forall l, tru l = false -> children l = [] /\ forall p, ~ In l (children p).
+(* the literal-substring shortcut of BaseCfgLine.re_search is sound for regex slot r in mode md *)
+Definition ShortcutOK (md r : nat) : Prop :=
+  forall l, nometa md r = true -> lit md r l = true -> rxm md r l = true.
+(* every match of regex slot r in mode md is a non-empty string *)
+Definition NonEmptyOK (md r : nat) : Prop := forall l, rxm md r l = true -> ne md r l = true.
+
+(* ---------------- descendants ---------------- *)
+Inductive Desc (p : nat) : nat -> Prop :=
+| Desc_child c : In c (children p) -> Desc p c
+| Desc_step q c : In q (children p) -> Desc q c -> Desc p c.
+
+Lemma children_overflow p : nlines <= p -> children p = [].
+Proof using Type. clr. intros H. unfold Search.children. apply nth_overflow. exact H. Qed.
+
+Lemma In_desc (Hwf : WF) : forall fuel p, nlines <= fuel + p ->
+  forall x, In x (desc kids fuel p) <-> Desc p x.
+Proof using Type. clr.
+  induction fuel as [|f IH]; intros p Hf x.
+  - simpl. rewrite Nat.add_0_l in Hf. pose proof (children_overflow p Hf) as E.
+    split; [contradiction|]. intros HD. destruct HD as [c Hc|q c Hq _]; rewrite E in *; contradiction.
+  - cbn [desc]. rewrite In_isort, in_flat_map. split.
+    + intros (c & Hc & Hx). destruct Hx as [->|Hx]; [apply Desc_child; auto|].
+      apply Desc_step with c; auto. apply IH; auto. apply Hwf in Hc. lia.
+    + intros HD. destruct HD as [c Hc|q c Hq HD].
+      * exists c. split; auto. left; auto.
+      * exists q. split; auto. right. apply IH; auto. apply Hwf in Hq. lia.
+Qed.
+
+Lemma In_all_children (Hwf : WF) p x : In x (all_children p) <-> Desc p x.
+Proof using Type. clr. unfold Search.all_children. apply In_desc; auto. unfold Search.nlines. lia. Qed.
+
+Lemma all_children_sorted p : StronglySorted le (all_children p).
+Proof using Type. clr.
+  unfold Search.all_children. destruct (Search.nlines kids) as [|f]; simpl; [constructor|apply isort_sorted].
+Qed.
+
+Lemma Desc_gt (Hwf : WF) p x : Desc p x -> p < x < nlines.
+Proof using Type. clr. induction 1 as [p c Hc|p q c Hq _ IH]; [apply Hwf; auto|]. apply Hwf in Hq. lia. Qed.
+
+(* ---------------- find_objects ---------------- *)
+Lemma find_objects_spec r ex ws esc rv :
+  find_objects r ex ws esc rv =
   (if rv then @rev nat else (fun l => l)) (filter (rxm (mode_of ex ws esc) r) (seq 0 (length kids))).
-Proof. unfold find_objects, find_line, all_lines, nlines. destruct rv; reflexivity. Qed.
+Proof using Type. clr. unfold Search.find_objects, Search.find_line, Search.all_lines, Search.nlines. destruct rv; reflexivity. Qed.
+
+Lemma find_line_sorted md r : StronglySorted lt (find_line md r).
+Proof using Type. clr. unfold Search.find_line, Search.all_lines. apply filter_sorted, seq_sorted. Qed.
+
+Lemma In_find_line md r l : In l (find_line md r) <-> l < nlines /\ rxm md r l = true.
+Proof using Type. clr.
+  unfold Search.find_line, Search.all_lines. rewrite filter_In, in_seq. intuition lia.
+Qed.
+
+Lemma find_objects_members r ex ws esc rv l :
+  In l (find_objects r ex ws esc rv) <-> l < length kids /\ rxm (mode_of ex ws esc) r l = true.
+Proof using Type. clr.
+  unfold Search.find_objects. destruct rv; [rewrite <- in_rev|]; apply In_find_line.
+Qed.
+
+Lemma find_objects_sorted r ex ws esc :
+  StronglySorted lt (find_objects r ex ws esc false).
+Proof using Type. clr. unfold Search.find_objects. apply find_line_sorted. Qed.
+
+Lemma find_objects_reverse r ex ws esc :
+  find_objects r ex ws esc true = rev (find_objects r ex ws esc false).
+Proof using Type. clr. reflexivity. Qed.
+
+Lemma find_objects_nodup r ex ws esc rv : NoDup (find_objects r ex ws esc rv).
+Proof using Type. clr.
+  unfold Search.find_objects. destruct rv.
+  - apply NoDup_rev. apply sorted_lt_NoDup, find_line_sorted.
+  - apply sorted_lt_NoDup, find_line_sorted.
+Qed.
+
+(* CiscoConfParse.re_search_children *)
+Lemma ccp_re_search_children_spec r recurse :
+  ccp_re_search_children kids par rxm r recurse =
+  filter (fun l => rxm 0 r l && (recurse || (par l =? l))) (seq 0 (length kids)).
+Proof using Type. clr.
+  unfold ccp_re_search_children, Search.find_objects, Search.find_line, Search.all_lines, Search.nlines. cbn [mode_of Nat.add].
+  destruct recurse.
+  - apply filter_ext. intros l. rewrite orb_true_l, andb_true_r. reflexivity.
+  - induction (seq 0 (length kids)) as [|a t IH]; simpl; auto.
+    destruct (rxm 0 r a); simpl; [destruct (par a =? a); simpl; rewrite IH|]; auto.
+Qed.
+
+(* ---------------- branch growth = depth-first chains (DESIGN appendix B.5) ---------------- *)
+Fixpoint ext (rs : list nat) (lst : elt) : list (list elt) :=
+  match rs with
+  | [] => [[]]
+  | r :: rs' =>
+      match lst with
+      | None => map (cons None) (ext rs' None)
+      | Some p => flat_map (fun k => map (cons k) (ext rs' k)) (next_kids (Some p) r)
+      end
+  end.
+
+(* the specification: depth-first, lexicographic enumeration of the (None-padded) chains *)
+Definition chains (rs : list nat) : list (list elt) :=
+  match rs with
+  | [] => []
+  | r0 :: rs' => flat_map (fun k => map (cons k) (ext rs' k)) (next_kids None r0)
+  end.
+
+Lemma last_snoc (b : list elt) k : last_of (b ++ [k]) = k.
+Proof using Type. clr. unfold last_of. apply last_last. Qed.
+
+Lemma grow_spec rs : forall bs,
+  fold_left (fun bs r => grow1 r bs) rs bs =
+  flat_map (fun b => map (app b) (ext rs (last_of b))) bs.
+Proof using Type. clr.
+  induction rs as [|r rs IH]; intros bs; cbn [fold_left ext].
+  - induction bs as [|b bs IHb]; simpl; auto. rewrite app_nil_r. f_equal. exact IHb.
+  - rewrite IH. unfold Search.grow1. rewrite flat_map_flat_map.
+    apply flat_map_ext. intros b.
+    destruct (last_of b) as [p|] eqn:El.
+    + rewrite flat_map_map'.
+      rewrite map_flat_map.
+      apply flat_map_ext. intros k. rewrite last_snoc, map_map.
+      apply map_ext. intros c. now rewrite <- app_assoc.
+    + simpl. rewrite app_nil_r, last_snoc, map_map.
+      apply map_ext. intros c. now rewrite <- app_assoc.
+Qed.
+
+Lemma branches_raw_spec rs : branches_raw rs = chains rs.
+Proof using Type. clr.
+  destruct rs as [|r0 rs]; [reflexivity|]. unfold Search.branches_raw, chains.
+  rewrite grow_spec, flat_map_map'. apply flat_map_ext. intros k. reflexivity.
+Qed.
+
+Lemma find_object_branches_spec rs empty rv :
+  find_object_branches rs empty rv =
+  (if rv then @rev (list elt) else (fun l => l))
+    ((if empty then (fun l => l) else filter (forallb (elt_truthy tru))) (chains rs)).
+Proof using Type. clr.
+  unfold Search.find_object_branches. rewrite branches_raw_spec. destruct empty, rv; reflexivity.
+Qed.
+
+(* every branch has exactly one element per regex *)
+Lemma ext_length rs : forall lst b, In b (ext rs lst) -> length b = length rs.
+Proof using Type. clr.
+  induction rs as [|r rs IH]; intros lst b Hb; cbn [ext] in Hb.
+  - destruct Hb as [<-|[]]. reflexivity.
+  - destruct lst as [p|].
+    + apply in_flat_map in Hb. destruct Hb as (k & _ & Hb). apply in_map_iff in Hb.
+      destruct Hb as (b' & <- & Hb'). simpl. f_equal. eapply IH; eauto.
+    + apply in_map_iff in Hb. destruct Hb as (b' & <- & Hb'). simpl. f_equal. eapply IH; eauto.
+Qed.
+
+Lemma chains_length rs b : In b (chains rs) -> length b = length rs.
+Proof using Type. clr.
+  destruct rs as [|r0 rs]; simpl; [contradiction|]. intros Hb.
+  apply in_flat_map in Hb. destruct Hb as (k & _ & Hb). apply in_map_iff in Hb.
+  destruct Hb as (b' & <- & Hb'). simpl. f_equal. eapply ext_length; eauto.
+Qed.
+
+(* ---------------- complete branches = chains of direct parent-to-child lines ---------------- *)
+(* ls continues a chain below line prev: line i is a direct child of line i-1 and matches regex i *)
+Fixpoint chain_from (prev : nat) (rs ls : list nat) : Prop :=
+  match rs, ls with
+  | [], [] => True
+  | r :: rs', l :: ls' => In l (children prev) /\ rxm 0 r l = true /\ chain_from l rs' ls'
+  | _, _ => False
+  end.
+
+Definition is_chain (rs ls : list nat) : Prop :=
+  match rs, ls with
+  | r0 :: rs', l0 :: ls' => l0 < nlines /\ rxm 0 r0 l0 = true /\ chain_from l0 rs' ls'
+  | _, _ => False
+  end.
+
+Lemma In_next_kids_Some p r l :
+  In (Some l) (next_kids (Some p) r) <-> In l (children p) /\ rxm 0 r l = true.
+Proof using Type. clr.
+  unfold Search.next_kids. destruct (filter (rxm 0 r) (children p)) as [|a t] eqn:E.
+  - split.
+    + intros [H|[]]; discriminate.
+    + intros H. apply filter_In in H. rewrite E in H. contradiction.
+  - rewrite <- E. rewrite in_map_iff. split.
+    + intros (x & Hx & Hin). inversion Hx; subst. apply filter_In in Hin. exact Hin.
+    + intros H. exists l. split; auto. apply filter_In. exact H.
+Qed.
+
+Lemma In_next_kids_root r l :
+  In (Some l) (next_kids None r) <-> l < nlines /\ rxm 0 r l = true.
+Proof using Type. clr.
+  unfold Search.next_kids.
+  assert (E0 : filter (rxm 0 r) (find_line 0 r) = find_line 0 r) by (unfold Search.find_line; apply filter_idem).
+  rewrite E0. clear E0.
+  destruct (find_line 0 r) as [|a t] eqn:E.
+  - split.
+    + intros [H|[]]; discriminate.
+    + intros H. apply In_find_line in H. rewrite E in H. contradiction.
+  - rewrite <- E. rewrite in_map_iff. split.
+    + intros (x & Hx & Hin). inversion Hx; subst. apply In_find_line in Hin. exact Hin.
+    + intros H. exists l. split; auto. apply In_find_line. exact H.
+Qed.
+
+Lemma ext_complete rs : forall p ls,
+  In (map Some ls) (ext rs (Some p)) <-> chain_from p rs ls.
+Proof using Type. clr.
+  induction rs as [|r rs IH]; intros p ls; cbn [ext chain_from].
+  - destruct ls; simpl; split; auto; intros [H|[]]; discriminate.
+  - rewrite in_flat_map. split.
+    + intros (k & Hk & Hb). apply in_map_iff in Hb. destruct Hb as (b' & Hb & Hin).
+      destruct ls as [|l ls']; [discriminate|]. simpl in Hb. inversion Hb; subst.
+      apply In_next_kids_Some in Hk. destruct Hk. repeat split; auto. apply IH. exact Hin.
+    + destruct ls as [|l ls']; [contradiction|]. intros (Hc & Hm & Hch).
+      exists (Some l). split; [apply In_next_kids_Some; auto|].
+      simpl. apply in_map. apply IH. exact Hch.
+Qed.
+
+Lemma chains_complete rs ls : In (map Some ls) (chains rs) <-> is_chain rs ls.
+Proof using Type. clr.
+  destruct rs as [|r0 rs]; simpl; [tauto|].
+  rewrite in_flat_map. split.
+  - intros (k & Hk & Hb). apply in_map_iff in Hb. destruct Hb as (b' & Hb & Hin).
+    destruct ls as [|l ls']; [discriminate|]. simpl in Hb. inversion Hb; subst.
+    apply In_next_kids_root in Hk. destruct Hk. repeat split; auto. apply ext_complete. exact Hin.
+  - destruct ls as [|l ls']; [contradiction|]. intros (Hc & Hm & Hch).
+    exists (Some l). split; [apply In_next_kids_root; auto|].
+    simpl. apply in_map. apply ext_complete. exact Hch.
+Qed.
+
+Definition is_some (e : elt) : bool := match e with Some _ => true | None => false end.
+
+Lemma all_some_map b : forallb is_some b = true -> exists ls, b = map Some ls.
+Proof using Type. clr.
+  induction b as [|e b IH]; intros H; [exists []; auto|].
+  simpl in H. apply andb_prop in H. destruct H as [He Hb]. destruct e as [x|]; [|discriminate].
+  destruct (IH Hb) as (ls & ->). exists (x :: ls). reflexivity.
+Qed.
+
+Lemma truthy_some b : forallb (elt_truthy tru) b = true -> forallb is_some b = true.
+Proof using Type. clr.
+  induction b as [|e b IH]; simpl; auto. intros H. apply andb_prop in H. destruct H as [He Hb].
+  destruct e; [|discriminate]. simpl. auto.
+Qed.
+
+(* on real forests all(branch) only removes the branches that contain None *)
+Lemma chain_from_truthy (Hb : BlankOK) rs : forall prev ls,
+  chain_from prev rs ls -> forallb (elt_truthy tru) (map Some ls) = true.
+Proof using Type. clr.
+  induction rs as [|r rs IH]; intros prev ls H; destruct ls as [|l ls']; simpl in *; try tauto.
+  destruct H as (Hc & _ & Hch). apply andb_true_intro. split; [|eapply IH; eauto].
+  destruct (tru l) eqn:E; auto. exfalso. destruct (Hb l E) as [_ Hn]. exact (Hn _ Hc).
+Qed.
+
+Lemma chain_truthy (Hb : BlankOK) rs ls :
+  2 <= length rs -> is_chain rs ls -> forallb (elt_truthy tru) (map Some ls) = true.
+Proof using Type. clr.
+  destruct rs as [|r0 [|r1 rs]]; simpl; try lia. intros _.
+  destruct ls as [|l0 [|l1 ls]]; simpl; try tauto.
+  intros (_ & _ & Hc & Hm & Hch).
+  assert (T0 : tru l0 = true).
+  { destruct (tru l0) eqn:E; auto. exfalso. destruct (Hb l0 E) as [Hk _]. rewrite Hk in Hc. contradiction. }
+  assert (T1 : tru l1 = true).
+  { destruct (tru l1) eqn:E; auto. exfalso. destruct (Hb l1 E) as [_ Hn]. exact (Hn _ Hc). }
+  rewrite T0, T1. simpl. eapply chain_from_truthy; eauto.
+Qed.
+
+(* complete branches (empty_branches=False) are exactly the chains *)
+Lemma branches_complete_iff (Hb : BlankOK) rs b :
+  2 <= length rs ->
+  (In b (find_object_branches rs false false) <-> exists ls, b = map Some ls /\ is_chain rs ls).
+Proof using Type. clr.
+  intros Hl. rewrite find_object_branches_spec. cbn beta iota. rewrite filter_In. split.
+  - intros (Hin & Ht). destruct (all_some_map b (truthy_some b Ht)) as (ls & ->).
+    exists ls. split; auto. apply chains_complete. exact Hin.
+  - intros (ls & -> & Hc). split; [apply chains_complete; auto|eapply chain_truthy; eauto].
+Qed.
+
+(* with empty_branches=True nothing is filtered; every branch still has one element per regex *)
+Lemma branches_padded_length rs rv b :
+  In b (find_object_branches rs true rv) -> length b = length rs.
+Proof using Type. clr.
+  rewrite find_object_branches_spec. destruct rv; [rewrite <- in_rev|]; apply chains_length.
+Qed.
+
+(* None only ever pads: once a branch has None, all later elements are None, and the first None
+   appears only where NO direct child of the previous line matches the next regex *)
+Fixpoint padded_from (prev : elt) (rs : list nat) (b : list elt) : Prop :=
+  match rs, b with
+  | [], [] => True
+  | r :: rs', e :: b' =>
+      match prev, e with
+      | None, None => padded_from None rs' b'
+      | None, Some _ => False
+      | Some p, Some l => In l (children p) /\ rxm 0 r l = true /\ padded_from (Some l) rs' b'
+      | Some p, None => (forall l, In l (children p) -> rxm 0 r l = false) /\ padded_from None rs' b'
+      end
+  | _, _ => False
+  end.
+
+Lemma In_next_kids_None p r :
+  In None (next_kids (Some p) r) <-> forall l, In l (children p) -> rxm 0 r l = false.
+Proof using Type. clr.
+  unfold Search.next_kids. destruct (filter (rxm 0 r) (children p)) as [|a t] eqn:E.
+  - split; [|left; auto]. intros _ l Hl. destruct (rxm 0 r l) eqn:Em; auto.
+    assert (In l (filter (rxm 0 r) (children p))) as Hf by (apply filter_In; auto).
+    rewrite E in Hf. contradiction.
+  - split.
+    + intros H. apply in_map_iff in H. destruct H as (x & Hx & _). discriminate.
+    + intros H. assert (In a (filter (rxm 0 r) (children p))) as Hf by (rewrite E; left; auto).
+      apply filter_In in Hf. destruct Hf as [Hc Hm]. rewrite (H _ Hc) in Hm. discriminate.
+Qed.
+
+Lemma ext_padded rs : forall prev b, In b (ext rs prev) <-> padded_from prev rs b.
+Proof using Type. clr.
+  induction rs as [|r rs IH]; intros prev b; cbn [ext padded_from].
+  - destruct b; simpl; split; auto; try tauto. intros [H|[]]; discriminate.
+  - destruct prev as [p|].
+    + rewrite in_flat_map. split.
+      * intros (k & Hk & Hb). apply in_map_iff in Hb. destruct Hb as (b' & <- & Hin).
+        destruct k as [l|].
+        -- apply In_next_kids_Some in Hk. destruct Hk. repeat split; auto. apply IH; auto.
+        -- split; [apply In_next_kids_None; auto|apply IH; auto].
+      * destruct b as [|e b']; [tauto|]. destruct e as [l|].
+        -- intros (Hc & Hm & Hp). exists (Some l). split; [apply In_next_kids_Some; auto|].
+           apply in_map. apply IH; auto.
+        -- intros (Hn & Hp). exists None. split; [apply In_next_kids_None; auto|].
+           apply in_map. apply IH; auto.
+    + rewrite in_map_iff. split.
+      * intros (b' & <- & Hin). apply IH; auto.
+      * destruct b as [|e b']; [tauto|]. destruct e as [l|]; [tauto|].
+        intros Hp. exists b'. split; auto. apply IH; auto.
+Qed.
+
+(* ---------------- list forms of find_parent_objects / find_child_objects ---------------- *)
+Notation find_parent_objects_list := (find_parent_objects_list kids tru rxm).
+Notation find_child_objects_list := (find_child_objects_list kids tru rxm).
+
+Lemma In_somes x l : In x (somes l) <-> In (Some x) l.
+Proof using Type. clr.
+  unfold somes. rewrite in_flat_map. split.
+  - intros (e & He & Hx). destruct e; simpl in Hx; [destruct Hx as [->|[]]; auto|contradiction].
+  - intros H. exists (Some x). split; auto. left; auto.
+Qed.
+
+Lemma parents_list_sorted rs : StronglySorted lt (find_parent_objects_list rs).
+Proof using Type. clr.
+  destruct rs as [|r0 [|r1 rs]]; cbn [Search.find_parent_objects_list].
+  - constructor.
+  - apply find_objects_sorted.
+  - apply sort_set_sorted.
+Qed.
+
+Lemma parents_list_members (Hb : BlankOK) rs x : 2 <= length rs ->
+  (In x (find_parent_objects_list rs) <-> exists ls, is_chain rs (x :: ls)).
+Proof using Type. clr.
+  intros Hl. destruct rs as [|r0 [|r1 rs]]; simpl in Hl; try lia.
+  assert (L2 : 2 <= length (r0 :: r1 :: rs)) by (simpl; lia).
+  cbn [Search.find_parent_objects_list]. rewrite In_sort_set, In_somes, in_map_iff. split.
+  - intros (b & Hh & Hin). apply (branches_complete_iff Hb _ _ L2) in Hin.
+    destruct Hin as (ls & -> & Hc). destruct ls as [|l0 ls]; [simpl in Hc; contradiction|].
+    simpl in Hh. inversion Hh; subst. exists ls. exact Hc.
+  - intros (ls & Hc). exists (map Some (x :: ls)). split; [reflexivity|].
+    apply (branches_complete_iff Hb _ _ L2). exists (x :: ls). auto.
+Qed.
+
+Lemma parents_list_single r : find_parent_objects_list [r] = filter (rxm 0 r) (seq 0 (length kids)).
+Proof using Type. clr. reflexivity. Qed.
+
+Lemma children_list_sorted rs : StronglySorted lt (find_child_objects_list rs).
+Proof using Type. clr.
+  destruct rs as [|r0 [|r1 rs]]; cbn [Search.find_child_objects_list].
+  - constructor.
+  - apply find_objects_sorted.
+  - apply sort_set_sorted.
+Qed.
+
+Lemma children_list_members (Hb : BlankOK) rs x : 2 <= length rs ->
+  (In x (find_child_objects_list rs) <-> exists ls, is_chain rs (ls ++ [x])).
+Proof using Type. clr.
+  intros Hl. destruct rs as [|r0 [|r1 rs]]; simpl in Hl; try lia.
+  assert (L2 : 2 <= length (r0 :: r1 :: rs)) by (simpl; lia).
+  cbn [Search.find_child_objects_list]. rewrite In_sort_set, In_somes, in_map_iff. split.
+  - intros (b & Hh & Hin). apply (branches_complete_iff Hb _ _ L2) in Hin.
+    destruct Hin as (ls & -> & Hc).
+    destruct (exists_last (l := ls)) as (ls' & y & ->).
+    { intros ->. simpl in Hc. contradiction. }
+    unfold last_of in Hh. rewrite map_app in Hh. simpl in Hh. rewrite last_last in Hh.
+    inversion Hh; subst. exists ls'. exact Hc.
+  - intros (ls & Hc). exists (map Some (ls ++ [x])). split.
+    + unfold last_of. rewrite map_app. simpl. apply last_last.
+    + apply (branches_complete_iff Hb _ _ L2). exists (ls ++ [x]). auto.
+Qed.
+
+(* ---------------- two-argument forms ---------------- *)
+Notation obj_re_search_children := (obj_re_search_children kids rxm nometa lit).
+Notation find_parent_objects_2 := (find_parent_objects_2 kids rxm nometa lit).
+Notation find_parent_objects_wo_child_2 := (find_parent_objects_wo_child_2 kids rxm nometa lit).
+Notation find_child_objects_2 := (find_child_objects_2 kids rxm ne).
+
+Lemma re_search_sound md r (Hs : ShortcutOK md r) l : re_search md r l = rxm md r l.
+Proof using Type. clr.
+  unfold Search.re_search. destruct (nometa md r) eqn:En, (lit md r l) eqn:El; simpl; auto.
+  rewrite (Hs l En El). reflexivity.
+Qed.
+
+Definition offspring (recurse : bool) (p : nat) : list nat :=
+  if recurse then all_children p else children p.
+
+(* the family relation the `recurse` flag selects *)
+Definition Below (recurse : bool) (p x : nat) : Prop :=
+  if recurse then Desc p x else In x (children p).
+
+Lemma In_offspring (Hwf : WF) recurse p x : In x (offspring recurse p) <-> Below recurse p x.
+Proof using Type. clr. destruct recurse; simpl; [apply In_all_children; auto|tauto]. Qed.
+
+Lemma obj_re_search_children_spec md r recurse p (Hs : ShortcutOK md r) :
+  obj_re_search_children md r recurse p = filter (rxm md r) (offspring recurse p).
+Proof using Type. clr.
+  unfold Search.obj_re_search_children, offspring. apply filter_ext. intros l. apply re_search_sound; auto.
+Qed.
+
+Lemma has_child_with_spec (Hwf : WF) r allc p (Hs : ShortcutOK 0 r) :
+  has_child_with kids rxm nometa lit r allc p = true <-> exists x, Below allc p x /\ rxm 0 r x = true.
+Proof using Type. clr.
+  unfold Search.has_child_with. rewrite is_nil_filter_existsb, existsb_exists.
+  split; intros (x & Hx & Hm); exists x.
+  - rewrite re_search_sound in Hm; auto. split; auto. apply (In_offspring Hwf allc); exact Hx.
+  - rewrite re_search_sound; auto. split; auto. apply (In_offspring Hwf allc) in Hx; exact Hx.
+Qed.
+
+Lemma parents_2_spec p c ws recurse esc rv (Hs : ShortcutOK (mode_of false ws esc) c) :
+  find_parent_objects_2 p c ws recurse esc rv =
+  filter (fun x => existsb (rxm (mode_of false ws esc) c) (offspring recurse x)) (find_objects p false ws esc rv).
+Proof using Type. clr.
+  unfold Search.find_parent_objects_2. apply filter_ext. intros x.
+  rewrite obj_re_search_children_spec; auto. apply is_nil_filter_existsb.
+Qed.
+
+Lemma wo_child_2_spec p c ws recurse esc rv (Hs : ShortcutOK (mode_of false ws esc) c) :
+  find_parent_objects_wo_child_2 p c ws recurse esc rv =
+  filter (fun x => negb (existsb (rxm (mode_of false ws esc) c) (offspring recurse x))) (find_objects p false ws esc rv).
+Proof using Type. clr.
+  unfold Search.find_parent_objects_wo_child_2. apply filter_ext. intros x.
+  rewrite obj_re_search_children_spec; auto. apply is_nil_filter_existsb'.
+Qed.
+
+Lemma parents_2_members (Hwf : WF) p c ws recurse esc rv (Hs : ShortcutOK (mode_of false ws esc) c) x :
+  In x (find_parent_objects_2 p c ws recurse esc rv) <->
+  x < length kids /\ rxm (mode_of false ws esc) p x = true /\
+  exists y, Below recurse x y /\ rxm (mode_of false ws esc) c y = true.
+Proof using Type. clr.
+  rewrite parents_2_spec; auto. rewrite filter_In, find_objects_members, existsb_exists.
+  split.
+  - intros ((Hl & Hm) & y & Hy & Hc). repeat split; auto. exists y. split; auto. apply (In_offspring Hwf recurse); auto.
+  - intros (Hl & Hm & y & Hy & Hc). repeat split; auto. exists y. split; auto. apply (In_offspring Hwf recurse); auto.
+Qed.
+
+Lemma wo_child_2_members (Hwf : WF) p c ws recurse esc rv (Hs : ShortcutOK (mode_of false ws esc) c) x :
+  In x (find_parent_objects_wo_child_2 p c ws recurse esc rv) <->
+  x < length kids /\ rxm (mode_of false ws esc) p x = true /\
+  ~ exists y, Below recurse x y /\ rxm (mode_of false ws esc) c y = true.
+Proof using Type. clr.
+  rewrite wo_child_2_spec; auto. rewrite filter_In, find_objects_members, negb_true_iff.
+  split.
+  - intros ((Hl & Hm) & Hn). repeat split; auto. intros (y & Hy & Hc).
+    assert (existsb (rxm (mode_of false ws esc) c) (offspring recurse x) = true) as E.
+    { apply existsb_exists. exists y. split; auto. apply (In_offspring Hwf recurse); auto. }
+    rewrite E in Hn. discriminate.
+  - intros (Hl & Hm & Hn). repeat split; auto.
+    destruct (existsb (rxm (mode_of false ws esc) c) (offspring recurse x)) eqn:E; auto.
+    exfalso. apply Hn. apply existsb_exists in E. destruct E as (y & Hy & Hc). exists y. split; auto.
+    apply (In_offspring Hwf recurse); auto.
+Qed.
+
+(* order: the two-argument parent searches keep the order of find_objects (ascending, or descending with reverse) *)
+Lemma parents_2_sorted p c ws recurse esc : StronglySorted lt (find_parent_objects_2 p c ws recurse esc false).
+Proof using Type. clr. unfold Search.find_parent_objects_2. apply filter_sorted, find_objects_sorted. Qed.
+
+Lemma wo_child_2_sorted p c ws recurse esc : StronglySorted lt (find_parent_objects_wo_child_2 p c ws recurse esc false).
+Proof using Type. clr. unfold Search.find_parent_objects_wo_child_2. apply filter_sorted, find_objects_sorted. Qed.
+
+Lemma filter_rev {A} (f : A -> bool) l : filter f (rev l) = rev (filter f l).
+Proof using Type. clr.
+  induction l as [|a l IH]; simpl; auto. rewrite filter_app, IH. simpl.
+  destruct (f a); simpl; [reflexivity|apply app_nil_r].
+Qed.
+
+Lemma parents_2_reverse p c ws recurse esc :
+  find_parent_objects_2 p c ws recurse esc true = rev (find_parent_objects_2 p c ws recurse esc false).
+Proof using Type. clr. unfold Search.find_parent_objects_2. rewrite find_objects_reverse. apply filter_rev. Qed.
+
+Lemma wo_child_2_reverse p c ws recurse esc :
+  find_parent_objects_wo_child_2 p c ws recurse esc true = rev (find_parent_objects_wo_child_2 p c ws recurse esc false).
+Proof using Type. clr. unfold Search.find_parent_objects_wo_child_2. rewrite find_objects_reverse. apply filter_rev. Qed.
+
+(* parents with and without a matching child partition the matching parents *)
+Lemma parents_partition p c ws recurse esc x :
+  In x (find_objects p false ws esc false) <->
+  (In x (find_parent_objects_2 p c ws recurse esc false) \/ In x (find_parent_objects_wo_child_2 p c ws recurse esc false)).
+Proof using Type. clr.
+  unfold Search.find_parent_objects_2, Search.find_parent_objects_wo_child_2. rewrite !filter_In.
+  destruct (is_nil (obj_re_search_children (mode_of false ws esc) c recurse x)); simpl; intuition discriminate.
+Qed.
+
+(* find_child_objects, two-argument form *)
+Lemma children_2_sorted p c ws recurse esc rv : StronglySorted lt (find_child_objects_2 p c ws recurse esc rv).
+Proof using Type. clr. unfold Search.find_child_objects_2. apply sort_set_sorted. Qed.
+
+Lemma children_2_members (Hwf : WF) p c ws recurse esc rv (Hn : NonEmptyOK (mode_of false ws esc) c) x :
+  In x (find_child_objects_2 p c ws recurse esc rv) <->
+  rxm (mode_of false ws esc) c x = true /\
+  exists y, y < length kids /\ rxm (mode_of false ws esc) p y = true /\ Below recurse y x.
+Proof using Type. clr.
+  unfold Search.find_child_objects_2. rewrite In_sort_set, in_flat_map. split.
+  - intros (y & Hy & Hx). apply find_objects_members in Hy. destruct Hy as [Hl Hm].
+    apply filter_In in Hx. destruct Hx as [Hin Hh]. unfold child_hit in Hh. apply andb_prop in Hh.
+    destruct Hh as [Hc _]. split; auto. exists y. repeat split; auto.
+    apply (In_offspring Hwf recurse). exact Hin.
+  - intros (Hc & y & Hl & Hm & Hbel). exists y. split; [apply find_objects_members; auto|].
+    apply filter_In. split; [apply (In_offspring Hwf recurse) in Hbel; exact Hbel|].
+    unfold child_hit. rewrite Hc, (Hn _ Hc). reflexivity.
+Qed.
+
+(* ---------------- list form of length 2 = two-argument form at recurse=False ---------------- *)
+Lemma is_chain_2 p c x y :
+  is_chain [p; c] [x; y] <-> x < nlines /\ rxm 0 p x = true /\ In y (children x) /\ rxm 0 c y = true.
+Proof using Type. clr. simpl. tauto. Qed.
+
+Lemma is_chain_2_shape p c ls : is_chain [p; c] ls -> exists x y, ls = [x; y].
+Proof using Type. clr.
+  destruct ls as [|x [|y [|z t]]]; simpl; try tauto.
+  - intros _. exists x, y. reflexivity.
+Qed.
+
+Lemma list_eq_2arg_parents (Hb : BlankOK) p c (Hs : ShortcutOK 0 c) :
+  find_parent_objects_list [p; c] = find_parent_objects_2 p c false false false false.
+Proof using Type. clr.
+  apply sorted_lt_unique; [apply parents_list_sorted|apply parents_2_sorted|].
+  intros x. rewrite parents_list_members; auto. rewrite parents_2_spec; auto.
+  rewrite filter_In, find_objects_members, existsb_exists. cbn [mode_of Nat.add offspring]. split.
+  - intros (ls & Hc). destruct (is_chain_2_shape _ _ _ Hc) as (x' & y & E). inversion E; subst.
+    apply is_chain_2 in Hc. destruct Hc as (H1 & H2 & H3 & H4). split; [split; auto|]. exists y. auto.
+  - intros ((H1 & H2) & y & H3 & H4). exists [y]. apply is_chain_2. auto.
+Qed.
+
+Lemma list_eq_2arg_children (Hb : BlankOK) p c (Hn : NonEmptyOK 0 c) :
+  find_child_objects_list [p; c] = find_child_objects_2 p c false false false false.
+Proof using Type. clr.
+  apply sorted_lt_unique; [apply children_list_sorted|apply children_2_sorted|].
+  intros x. rewrite children_list_members; auto.
+  unfold Search.find_child_objects_2. rewrite In_sort_set, in_flat_map. cbn [mode_of Nat.add]. split.
+  - intros (ls & Hc). destruct (is_chain_2_shape _ _ _ Hc) as (x' & y & E).
+    destruct ls as [|a [|b t]]; simpl in E; inversion E; subst; [|destruct t; discriminate].
+    apply is_chain_2 in Hc. destruct Hc as (H1 & H2 & H3 & H4).
+    exists x'. split; [apply find_objects_members; auto|].
+    apply filter_In. split; auto. unfold child_hit. rewrite H4, (Hn _ H4). reflexivity.
+  - intros (y & Hy & Hx). apply find_objects_members in Hy. destruct Hy as [H1 H2].
+    apply filter_In in Hx. destruct Hx as [H3 H4]. unfold child_hit in H4. apply andb_prop in H4.
+    exists [y]. apply is_chain_2. tauto.
+Qed.
+
+(* the list form of find_parent_objects_wo_child AS DEMANDED by the property is, by definition, the
+   two-argument form; the list form AS IMPLEMENTED (F03) is not: *)
+End Proofs.
+
+(* F03 witness: config ['ab',' b','ab',' c'], list form ['ab','c'].  Slot 0 = 'ab' (lines 0,2),
+   slot 1 = 'c' (line 3), slot 2 = 'b' = second character of 'ab' (lines 0,1,2). *)
+Definition f03_kids : list (list nat) := [[1]; []; [3]; []].
+Definition f03_rxm (md r l : nat) : bool :=
+  match r with
+  | 0 => (l =? 0) || (l =? 2)
+  | 1 => l =? 3
+  | _ => (l =? 0) || (l =? 1) || (l =? 2)
+  end.
+Definition f03_no (md r : nat) := false.
+Definition f03_lit (md r l : nat) := false.
+
+Lemma wo_child_list_refuted :
+  exists kids rxm nometa lit p c c2,
+    find_parent_objects_wo_child_list_impl kids rxm nometa lit p c2 <>
+    Some (find_parent_objects_wo_child_list kids rxm nometa lit p c).
+Proof.
+  exists f03_kids, f03_rxm, f03_no, f03_lit, 0, 1, (Some 2). vm_compute. discriminate.
+Qed.
+
+(* the two-argument child search really needs NonEmptyOK: a child regex that matches the empty
+   string ('$') finds nothing, although the list form finds the child (information, see design/C04.md) *)
+Lemma children_2_needs_nonempty :
+  exists kids tru rxm ne p c,
+    find_child_objects_2 kids rxm ne p c false false false false <> find_child_objects_list kids tru rxm [p; c].
+Proof.
+  exists [[1]; []], (fun _ => true), (fun _ r l => if r =? 0 then l =? 0 else true), (fun _ _ _ => false), 0, 1.
+  vm_compute. discriminate.
+Qed.
+
+(* ---------------- non-vacuity: a real forest meets the hypotheses ---------------- *)
+(* ['interface Eth1', ' ip address', '  secondary', ' shutdown', '', '!', 'interface Eth2', ' shutdown'] *)
+Definition ex_kids : list (list nat) := [[1; 3]; [2]; []; []; []; []; [7]; []].
+Definition ex_tru (l : nat) : bool := negb (l =? 4).
+(* slot 0 = 'interface', slot 1 = 'shutdown', slot 2 = 'secondary' *)
+Definition ex_rxm (md r l : nat) : bool :=
+  match r with 0 => (l =? 0) || (l =? 6) | 1 => (l =? 3) || (l =? 7) | _ => l =? 2 end.
+
+Example ex_WF : WF ex_kids.
+Proof.
+  intros p c H. unfold children, ex_kids in H.
+  do 8 (destruct p as [|p]; [simpl in H; repeat (destruct H as [<-|H]; [unfold nlines; simpl; lia|]); contradiction|]).
+  destruct p; simpl in H; contradiction.
+Qed.
+
+Example ex_BlankOK : BlankOK ex_kids ex_tru.
+Proof.
+  intros l H. unfold ex_tru in H. apply negb_false_iff, Nat.eqb_eq in H. subst l. split; [reflexivity|].
+  intros p Hp. unfold children, ex_kids in Hp.
+  do 8 (destruct p as [|p]; [simpl in Hp; repeat (destruct Hp as [Hp|Hp]; [discriminate|]); contradiction|]).
+  destruct p; simpl in Hp; contradiction.
+Qed.
+
+Example ex_branches :
+  find_object_branches ex_kids ex_tru ex_rxm [0; 1] true false = [[Some 0; Some 3]; [Some 6; Some 7]]
+  /\ find_object_branches ex_kids ex_tru ex_rxm [0; 2] true false = [[Some 0; None]; [Some 6; None]]
+  /\ find_parent_objects_2 ex_kids ex_rxm (fun _ _ => false) (fun _ _ _ => false) 0 2 false true false false = [0]
+  /\ find_parent_objects_wo_child_2 ex_kids ex_rxm (fun _ _ => false) (fun _ _ _ => false) 0 2 false true false false = [6]
+  /\ find_parent_objects_wo_child_2 ex_kids ex_rxm (fun _ _ => false) (fun _ _ _ => false) 0 2 false false false false = [0; 6].
+Proof. vm_compute. repeat split. Qed.
